@@ -31,7 +31,7 @@ type TGCase struct {
 	// (rules with Spec.Rules[i].NoAct are written without any action: their
 	// reductions are not recorded, so only the differential oracle (C08) and the
 	// verdict oracles apply to such a case)
-	Text     string     `json:"grammar_text,omitempty"` // canonical rendering, informational
+	Text string `json:"grammar_text,omitempty"` // canonical rendering, informational
 }
 
 var (
@@ -56,6 +56,11 @@ func (c *Ctx) GenEnv() *gen.Env {
 // drawTG draws a tier-G case from the given families.
 func drawTG(t *rapid.T, fams []string, maxAll int, nSent int) *TGCase {
 	f := rapid.SampledFrom(fams).Draw(t, "family")
+	// "plain-<family>": the actions are written the way users write them
+	plain := strings.HasPrefix(f, "plain-")
+	if plain {
+		f = f[len("plain-"):]
+	}
 	var s *spec.Spec
 	name := f
 	switch f {
@@ -111,6 +116,10 @@ func drawTG(t *rapid.T, fams []string, maxAll int, nSent int) *TGCase {
 		panic("unknown tier-G family " + f)
 	}
 	spec.WithSem(t, s)
+	if plain {
+		spec.MakePlain(t, s)
+		name = "plain-" + name
+	}
 	if rapid.IntRange(0, 4).Draw(t, "eofalias") == 0 {
 		s.EOFAlias = "EOFTOK"
 	}
@@ -270,6 +279,8 @@ func refValue(s *spec.Spec, tree *ref.Tree) ref.Value {
 				return ref.Value{}
 			}
 			switch m.Kind {
+			case "copy":
+				return kids[m.Terms[0].Pos-1]
 			case "lin":
 				v := m.C0
 				for _, t := range m.Terms {
@@ -384,6 +395,10 @@ func evalTG(c *Ctx, cs *TGCase, vr map[string]*gen.VRes, props map[string]bool) 
 			c.Inconclusive("generation timed out")
 			return out
 		}
+		if r.Gen.EnvironmentFailure() {
+			c.Infra("variant %s: the yaccgo CLI failed for a reason that is not its verdict on the grammar (exit %d): %s", v.Name, r.Gen.Exit, clip(r.Gen.Stderr, 300))
+			return out
+		}
 		if r.Gen.Failed() {
 			genFailed++
 		}
@@ -434,9 +449,10 @@ func evalTG(c *Ctx, cs *TGCase, vr map[string]*gen.VRes, props map[string]bool) 
 	}
 	c.Class("built-and-run")
 	c.Class("class:" + rf.class)
-	hasNoAct := false
+	hasNoAct, hasPlain := false, false
 	for _, r := range s.Rules {
 		hasNoAct = hasNoAct || r.NoAct
+		hasPlain = hasPlain || r.Plain
 	}
 	for i, in := range cs.Inputs {
 		w, unk := wordOf(s, in)
@@ -454,8 +470,8 @@ func evalTG(c *Ctx, cs *TGCase, vr map[string]*gen.VRes, props map[string]bool) 
 			if r.Verdict == "accept" {
 				if unk {
 					add("C01", v.Name, in, "variant %s accepted %s, which contains a token code that is not declared", v.Name, inputNames(s, in))
-				} else if hasNoAct {
-					// reductions of action-less rules are not recorded: no derivation to check
+				} else if hasNoAct || hasPlain {
+					// reductions of action-less rules and of rules with plain actions are not recorded: no derivation to check
 				} else if err := rf.g.CheckDerivation(r.Trace, w); err != nil {
 					add("C01", v.Name, in, "variant %s accepted %s but its reductions %v are not a rightmost derivation of the input in reverse: %v", v.Name, inputNames(s, in), r.Trace, err)
 				} else if len(r.Trace) >= 3 && props["C01"] {
@@ -509,7 +525,7 @@ func evalTG(c *Ctx, cs *TGCase, vr map[string]*gen.VRes, props map[string]bool) 
 						src = "the grammar's unique parse tree"
 					}
 				}
-				if tree == nil {
+				if tree == nil && !hasPlain {
 					tree, _ = rf.g.BuildTree(r.Trace, w)
 				}
 				if tree != nil {
